@@ -70,5 +70,8 @@ def check(ctx, alphabet=None):
               f'not bisimilar to the 1-3-5 transducer: {cex}', facts=cex or {},
               instance=f'product automaton: {states} states, {trans} transitions',
               detail=f'{states} reachable product states, {trans} transitions')
+    # R3: the flags published in the tables are exactly significant_cloud(okta column), nothing rewrites them
+    from sa.rules import metarize
+    metarize.sorted_before_significance(ctx, 'C17-R3')
     ctx.assumptions += ['okta values are integers (alphabet above); Python int/bool/list semantics '
                         'of the supported subset as encoded in sa/fold.py']
